@@ -18,7 +18,8 @@ RULE = ('option combinations (require_csrf True/False/None or a non-bool 0/1/\'\
         'generator/iterator, check_origin / allow_no_origin / require_csrf as bool or truthy/falsy non-bool, callbacks returning '
         'True/False/None/0/1/str/[]; the directive\'s leading options passed positionally; the view a function or a class whose '
         '__view_defaults__ (decorator / attribute / inherited) carry their own require_csrf next to the call-level one (absent, '
-        'explicit None, True, False, other), registered by add_view, add_exception_view or @view_config + scan; storage '
+        'explicit None, True, False, other), registered by add_view, add_exception_view, add_notfound_view (requests to a missing '
+        'path), add_forbidden_view (a view raising HTTPForbidden) or @view_config + scan; storage '
         'policies constructed with their own cookie name / session key; pyramid.csrf_trusted_origins given to the Configurator, '
         'added by add_settings after the views were committed, or changed in registry.settings between the requests of a '
         'sequence (origins revoked / added); exception views; 0-3 other views with their own require_csrf in the same application; '
@@ -86,7 +87,9 @@ LEVEL_TEXT = ('Machine-checked theorems for all configurations, requests and his
               'passes, an explicit None included, replaces the class-level __view_defaults__ value; then the configured default '
               'decides), the trusted-origins setting is the one in force when the request is checked (every verdict of a sequence is the '
               'single-check verdict for that request and the settings of that moment; a revoked origin is refused from the next '
-              'request on), the documented positional order of set_default_csrf_options is the signature order (fact), '
+              'request on), views registered through add_exception_view / add_notfound_view / add_forbidden_view are never '
+              'checked and an exception view is checked only when its own registration says require_csrf=True, '
+              'the documented positional order of set_default_csrf_options is the signature order (fact), '
               'the urlsplit fragment extracts scheme/authority of scheme://authority[/...] and raises exactly on '
               'bad brackets; refutations for the unrepaired parameter values.')
 LEVEL_NOTE = ('Trusted: Coq kernel; the translator\'s primitive table and statement rules (fail-closed: anything outside '
@@ -192,6 +195,11 @@ def valid(case):
         if cfg.get('explicit_none_passed') not in (None, True, False) or (cfg.get('explicit_none_passed') and ex_ is not None):
             return False
         if cfg.get('exc_api') and not (cfg['exception_only'] and ex_ is False and vc is None):
+            return False
+        if cfg.get('special') not in (None, 'notfound', 'forbidden'):
+            return False
+        if cfg.get('special') and not (cfg['exception_only'] and ex_ is False and vc is None and not cfg.get('exc_api')
+                                       and not cfg.get('route') and not cfg.get('explicit_none_passed')):
             return False
         pa_ = cfg.get('policy_args')
         if pa_ is not None and not (cfg['storage'] in ('cookie', 'session') and set(pa_) <= {'name', 'positional'}
@@ -577,7 +585,18 @@ def _app(cfg):
                 dkw = {} if dv['explicit'] is None else {'require_csrf': dv['explicit']}
                 c.add_view(decoy, name='decoy%d' % i, **dkw)
         add_decoys('before')
-        if cfg['exception_only']:
+        if cfg.get('special') == 'notfound':
+            # no view is registered for /missing (where these cases send their requests): the Not Found view answers
+            c.add_view(lambda context, request: I['Response']('home'), require_csrf=False)
+            c.add_notfound_view(target)
+        elif cfg.get('special') == 'forbidden':
+            from pyramid.httpexceptions import HTTPForbidden
+
+            def refuser(context, request):
+                raise HTTPForbidden()
+            c.add_view(refuser, require_csrf=False)
+            c.add_forbidden_view(target)
+        elif cfg['exception_only']:
             def raiser(context, request):
                 raise Boom()
             c.add_view(raiser, require_csrf=False)
@@ -641,7 +660,8 @@ def _environ(cfg, r):
     import io
     import urllib.parse as up
     env = {
-        'REQUEST_METHOD': r['method'], 'SCRIPT_NAME': '', 'PATH_INFO': '/', 'SERVER_PROTOCOL': 'HTTP/1.1',
+        'REQUEST_METHOD': r['method'], 'SCRIPT_NAME': '',
+        'PATH_INFO': '/missing' if cfg.get('special') == 'notfound' else '/', 'SERVER_PROTOCOL': 'HTTP/1.1',
         'SERVER_NAME': r['server_name'], 'SERVER_PORT': r['server_port'], 'wsgi.url_scheme': r['scheme'],
         'wsgi.version': (1, 0), 'wsgi.multithread': False, 'wsgi.multiprocess': False, 'wsgi.run_once': False,
         'QUERY_STRING': up.urlencode([tuple(kv) for kv in r['query']]),
@@ -969,7 +989,8 @@ def to_wire(case):
     vc = cfg.get('view_class')
     cls_level = level(vc is not None and 'require_csrf' in vc, vc.get('require_csrf') if vc else None)
     call_level = level(ex is not None or bool(cfg.get('explicit_none_passed')), ex)
-    cw = [[cls_level, call_level], dw, cfg['exception_only'],
+    exw = [7] if (cfg.get('special') or cfg.get('exc_api')) else [cls_level, call_level]
+    cw = [exw, dw, cfg['exception_only'],
           {'legacy': 0, 'session': 1, 'cookie': 2}[cfg['storage']],
           [] if s is None else [s] if isinstance(s, str) else list(s),
           _defaults_first(cfg)]
@@ -1209,6 +1230,8 @@ def kinds(case, obs):
         ks.append('policy-custom-name-' + ('positional' if case['config']['policy_args'].get('positional') else 'keyword'))
     if case['config'].get('exc_api'):
         ks.append('add-exception-view')
+    if case['config'].get('special'):
+        ks.append('add-%s-view' % case['config']['special'])
     if case['config'].get('route'):
         ks.append('route-%s-%s' % (case['config']['route'], 'method' if vc_ else 'function'))
     if 'positional' in d_:
